@@ -60,6 +60,7 @@ def teval_ref(target, _t, scope):
                 _extend_children(children, cur, lookup)
             elif op == 'X':
                 seen = set()
+                seen.add(id(cur))                 # the root itself counts as expanded: a cycle through it must not expand it again
                 _extend_children(children, cur, lookup)
                 for item in children:
                     if id(item) not in seen:
@@ -126,3 +127,37 @@ def get_sequence_item_ref(target, index):
 def path_glomit_ref(self, target, scope):
     """a Path spec evaluates its recorded steps"""
     return _t_eval(target, self.path_t, scope)
+
+
+def extend_children_ref(children, item, get_handler):
+    """children of a value: with both a `keys` and a `get` handler, get(item, key) for every key in order, entries whose access raises
+    are skipped and a failing key enumeration keeps what was collected; otherwise the `iterate` handler's items (nothing if it
+    raises); values with neither have no children"""
+    try:
+        keys = get_handler('keys', item)
+        get = get_handler('get', item)
+    except UnregisteredTarget:
+        try:
+            iterate = get_handler('iterate', item)
+        except UnregisteredTarget:
+            return None
+        try:
+            children.extend(iterate(item))
+        except Exception:
+            pass
+        return None
+    try:
+        for key in keys(item):
+            try:
+                children.append(get(item, key))
+            except Exception:
+                pass
+    except Exception:
+        pass
+    return None
+
+
+def stars_ref(self):
+    """number of wildcard steps of a T expression"""
+    codes = self.__ops__[1::2]
+    return codes.count('x') + codes.count('X')
